@@ -146,6 +146,16 @@ func traceConcStore(t *testing.T, o opts) {
 		if err != nil {
 			t.Fatal(err)
 		}
+		// a second store in the same process, with a service of its own that is never held and
+		// serves other versions (1000 and up) of the same names: whatever the first store is
+		// waiting for, this one's refreshes and lookups are answered by its own service
+		g2 := &gateSvc{cur: map[string]int{"a": 1000, "b": 1000}, gate: make(chan struct{})}
+		st2, err2 := setec.NewStore(context.Background(), setec.StoreConfig{Client: g2, Secrets: []string{"a"}, AllowLookup: true,
+			PollInterval: -1, Logf: func(string, ...any) {}})
+		byRefreshBad, byLookupBad := 0, 0
+		if err2 != nil {
+			byRefreshBad++
+		}
 		handles := map[string]setec.Secret{"a": st.Secret("a"), "b": st.Secret("b")}
 		if hc, err := st.LookupSecret(context.Background(), "c"); err == nil {
 			handles["c"] = hc
@@ -427,6 +437,32 @@ func traceConcStore(t *testing.T, o opts) {
 				if !ok {
 					stalled++
 				}
+				if st2 != nil && err2 == nil {
+					// the bystander: a refresh and a lookup of the very name the first store is
+					// looking up right now, both bounded
+					g2.bump("a")
+					g2.mu.Lock()
+					wantA := fmt.Sprintf("a#%d", g2.cur["a"])
+					fn := fmt.Sprintf("x%d", round)
+					g2.cur[fn] = 500 + round
+					wantX := fmt.Sprintf("%s#%d", fn, 500+round)
+					g2.mu.Unlock()
+					cx, cancel := context.WithTimeout(context.Background(), 5*time.Second)
+					if err := st2.Refresh(cx); err != nil || string(st2.Secret("a").Get()) != wantA {
+						byRefreshBad++
+					}
+					func() {
+						defer func() {
+							if recover() != nil {
+								byLookupBad++
+							}
+						}()
+						if hd, err := st2.LookupSecret(cx, fn); err != nil || hd == nil || string(hd.Get()) != wantX {
+							byLookupBad++
+						}
+					}()
+					cancel()
+				}
 			}
 			<-armed
 			g.hold.Store(false)
@@ -579,8 +615,11 @@ func traceConcStore(t *testing.T, o opts) {
 		afterClose := reads.Load() - afterBefore
 		close(stop)
 		wg.Wait()
-		emit("concstore\treaders=%d\treads=%d\tbad=%d\twrongname=%d\tnonmono=%d\twindows=%d\tstalled=%d\tpanics=%d\tafterclose=%d\tdropped_pinned=%d\tupd_bad=%d\tupd_nonmono=%d\tlookup_fail=%d\tmax_cond_waiting=%d\tstale_after_refresh=%d\tlate_flight_fail=%d\tlookup_panics=%d\tupd_e_stale=%d\tbelow_floor=%d\tnil_but_stale=%d\tcache_behind=%d\t%s",
-			nreaders, reads.Load(), bad.Load(), wrong.Load(), nonmono.Load(), windows, stalled, panics.Load(), afterClose, dropped, ubad.Load(), unonmono.Load(), lookupFail.Load(), g.maxCondWaiting.Load(), staleAfter, lateFlight, lookupPanics.Load(), updEStale, belowFloor, nilButStale, cacheBehind, cu)
+		if st2 != nil && err2 == nil {
+			st2.Close()
+		}
+		emit("concstore\treaders=%d\treads=%d\tbad=%d\twrongname=%d\tnonmono=%d\twindows=%d\tstalled=%d\tpanics=%d\tafterclose=%d\tdropped_pinned=%d\tupd_bad=%d\tupd_nonmono=%d\tlookup_fail=%d\tmax_cond_waiting=%d\tstale_after_refresh=%d\tlate_flight_fail=%d\tlookup_panics=%d\tupd_e_stale=%d\tbelow_floor=%d\tnil_but_stale=%d\tcache_behind=%d\tby_refresh_bad=%d\tby_lookup_bad=%d\t%s",
+			nreaders, reads.Load(), bad.Load(), wrong.Load(), nonmono.Load(), windows, stalled, panics.Load(), afterClose, dropped, ubad.Load(), unonmono.Load(), lookupFail.Load(), g.maxCondWaiting.Load(), staleAfter, lateFlight, lookupPanics.Load(), updEStale, belowFloor, nilButStale, cacheBehind, byRefreshBad, byLookupBad, cu)
 	}
 }
 
